@@ -118,7 +118,7 @@ func (QueryEventScenario) Shrinks(c interface{}) []interface{} { return shrinkSv
 
 func (QueryEventScenario) Execute(sim *sched.Sim, ci interface{}, prop string, race bool) *Outcome {
 	c := ci.(*SvcCase)
-	leakBase := stacksContaining("startQueryListener")
+	leakBase := libraryGoroutines()
 	run := RunSvc(sim, c, race, nil)
 	if !race {
 		run.CheckOrder()
@@ -136,7 +136,7 @@ func (QueryEventScenario) Execute(sim *sched.Sim, ci interface{}, prop string, r
 			for i := 0; i < 5000 && sim.Decide(nil); i++ {
 			}
 			run.H.Evals++
-			if n := stacksContaining("startQueryListener") - leakBase; n > 0 {
+			if n := libraryGoroutines() - leakBase; n > 0 {
 				run.H.Violate("C15", "leak", "after-shutdown", fmt.Sprintf("%d query listener goroutine(s) still exist one query duration after the service was shut down with query events active (%d query events were started)", n, len(run.E.QEs)))
 			}
 		}
@@ -361,7 +361,7 @@ func (e *Engine) checkQueryEvents(leakBase int) {
 	// release: nothing the query events allocated may remain
 	if cleanEnd {
 		h.Evals++
-		if n := stacksContaining("startQueryListener") - leakBase; n > 0 {
+		if n := libraryGoroutines() - leakBase; n > 0 {
 			h.Violate("C15", "leak", "(*queryEvent).startQueryListener", fmt.Sprintf("%d query listener goroutine(s) still exist after every query event expired and the service was shut down (%d query events were started)", n, len(e.QEs)))
 		}
 	}
